@@ -69,8 +69,9 @@ HARNESSES = [
     dict(name="stream", file="stream.c", include_dirs=["bin/gensquashfs/src"],
          fp={"get_filename": "stub_filename", "destroy": "stub_filename"},
          label="bounded(len<=3)", timeout=900,
+         unwindset=["fstree_from_file_stream.0:3"],
          cases=[dict(id="eol%d_len%d" % (e, n), defines={"EOL": e, "LEN": n},
-                     unwind=2 * n + 30, tier="quick")
+                     unwind=2 * n + 18, tier="quick" if n <= 2 else "thorough")
                 for e in (0, 1) for n in (1, 2, 3)]),
     dict(name="handle_line", file="handle_line.c",
          include_dirs=["bin/gensquashfs/src"],
